@@ -99,6 +99,13 @@ pub fn run(sink: &mut Sink, prop: &str, thorough: bool, seed: u64) {
         exhaustive(&toks, len, shard, nshards, |b| inputs.push(b.to_vec()));
         for b in inputs { emit(sink, &cfg, &b, &mut r, &format!("exh{}", len)); }
     }
+    // every byte value in every lexical position (whitespace slots, inside strings, inside numbers, after escapes)
+    for b in 0..=255u8 {
+        let pats: [Vec<u8>; 10] = [vec![b], vec![b, b'1'], vec![b'1', b], [b"[1,".as_ref(), &[b], b"2]"].concat(), [b"{\"a\"".as_ref(), &[b], b":1}"].concat(),
+            [b"\"".as_ref(), &[b], b"\""].concat(), [b"\"\\".as_ref(), &[b], b"\""].concat(), [b"1".as_ref(), &[b], b"5"].concat(), [b"[".as_ref(), &[b], b"]"].concat(),
+            [b"\"\\u00".as_ref(), &[b], b"0\""].concat()];
+        for p in pats.iter() { emit(sink, &cfg, p, &mut r, "byte"); }
+    }
     depth_profiles(sink, &cfg, &mut r);
     let docs = if thorough { 30000 } else { 3000 };
     for _ in 0..docs {
